@@ -5,7 +5,7 @@ import PdfModel.Model.Xref
   Model of the read / modify / save cycle of `pdf/src/file.rs` (`Storage`, `impl Updater for Storage`,
   `Storage::save`) together with `XRefTable::{set, push, write_stream}` of `pdf/src/xref.rs` and the
   loader `Backend::read_xref_table_and_trailer` (`pdf/src/backend.rs`), after the repairs D22, D23, D24,
-  D25, D44, D45 (see notes/C09.md; the pre-repair rules are kept as `…Old` definitions for the
+  D25, D44, D45, D46 (see notes/C09.md; the pre-repair rules are kept as `…Old` definitions for the
   counter-examples in Props/C09.lean).
 
   Object values are abstract (`V`): serialising one object is one `Obj` record at an offset; how many
@@ -288,6 +288,9 @@ def loadTrailer (st : St V) (root : Nat × Nat) (info : Option Nat) (prev : Opti
       | _ => .err
   | _ => .err
 
+/-- `backend::MAX_ID`: the reader refuses a `/Size` above it -/
+def MAX_ID : Nat := 1000000
+
 /-- `trailer.to_dict(self)`: /Info is `indirect`, a new object on every save -/
 def prepInfo (d : Doc V) : St V × Option Nat :=
   match d.tr.info with
@@ -315,8 +318,10 @@ def commit (P : Params V) (L : Layout) (d : Doc V) (pr : Prep V) (w : Written V)
       len := w.len + L.xrefLen + L.tailLen, startxref := w.len - pr.st2.start }
 
 /-- `Storage::save` (repaired). On failure nothing of the attempt is left in the backend and the
-    promise for the cross-reference stream is withdrawn. -/
+    promise for the cross-reference stream is withdrawn; a table the reader would refuse is not written. -/
 def save (P : Params V) (L : Layout) (d : Doc V) : Doc V × Out SaveInfo :=
+  if d.st.refs.length + 2 > MAX_ID then (d, .err)                  -- D46: `bail!("too many objects")`
+  else
   let pr := prep d
   match writeChanges P L pr.st2.start pr.st2.changes ⟨pr.st2.refs, pr.st2.objs, pr.st2.len⟩ with
   | (w, .ok ()) =>
@@ -339,8 +344,6 @@ def save (P : Params V) (L : Layout) (d : Doc V) : Doc V × Out SaveInfo :=
   | (w, .oof) => ({ d with st := { pr.st2 with refs := w.refs } }, .oof)
 
 /-! ### loading (`read_xref_table_and_trailer`, `File::load_data`) -/
-
-def MAX_ID : Nat := 1000000
 
 /-- the `/Prev` loop: `seen` holds the offsets already visited (`bail!("xref offsets loop")`) -/
 def prevChain (secs : List Sec) (start : Nat) : Nat → Option Nat → List Nat → Out (List (List Sub))
